@@ -292,6 +292,39 @@ where
     }
 }
 
+/// Direct entry to [`interpolate_deltas`] for the out-of-tree verification
+/// harness. Compiled only with `--cfg googlefonts_fontations_verif`; adds no
+/// behaviour.
+#[cfg(googlefonts_fontations_verif)]
+pub(super) mod verif_hooks {
+    use super::*;
+
+    /// Runs `interpolate_deltas::<i32, Fixed>` on caller supplied arrays.
+    ///
+    /// `has_delta[i]` says whether point `i` carries an explicit delta (the
+    /// `HAS_DELTA` marker); `out_points` holds the working points (original
+    /// point plus explicit delta, or the original point). Returns `false` when
+    /// the function returns `None`.
+    pub fn interpolate_deltas_fixed(
+        points: &[Point<i32>],
+        has_delta: &[bool],
+        contours: &[u16],
+        out_points: &mut [Point<Fixed>],
+    ) -> bool {
+        let flags: alloc::vec::Vec<PointFlags> = has_delta
+            .iter()
+            .map(|has| {
+                let mut flags = PointFlags::default();
+                if *has {
+                    flags.set_marker(PointMarker::HAS_DELTA);
+                }
+                flags
+            })
+            .collect();
+        interpolate_deltas(points, &flags, contours, out_points).is_some()
+    }
+}
+
 #[cfg(test)]
 mod tests {
     use super::*;
